@@ -370,6 +370,83 @@ type c02FreshDst struct {
 	N  map[string]map[zoo.AccDigits][]zoo.AccStr `json:"n"`
 }
 
+// c02IfaceHolding: an interface{} destination (top level, member, element, map value) that already
+// holds a pointer: encoding/json decodes into what the pointer points to (structs, unmarshalers of
+// the three kinds, maps, slices, scalars, pointers to pointers); a non-pointer content is replaced.
+func c02IfaceHolding(c *rt.Ctx, sub0 int) {
+	mks := []struct {
+		name string
+		mk   func() any
+	}{
+		{"*struct", func() any { return &struct{ A, B int }{A: 1} }},
+		{"*Unmarshaler", func() any { return &zoo.UP{} }},
+		{"*TextUnmarshaler", func() any { return &zoo.UT{} }},
+		{"*AccJSON", func() any { return &zoo.AccJSON{Seen: []string{"old"}} }},
+		{"*map", func() any { m := map[string]int{"old": 1}; return &m }},
+		{"*slice", func() any { s := []int{9, 9, 9}; return &s }},
+		{"*int", func() any { n := 5; return &n }},
+		{"**int", func() any { n := 5; p := &n; return &p }},
+		{"*string", func() any { s := "old"; return &s }},
+		{"*any", func() any { var a any = "old"; return &a }},
+		{"struct-by-value", func() any { return struct{ A int }{A: 1} }},
+		{"map-by-value", func() any { return map[string]any{"old": 1} }},
+		{"nil-*struct", func() any { return (*struct{ A int })(nil) }},
+	}
+	docs := []string{`{"A":7,"B":8}`, `"text"`, `[1,2]`, `12`, `null`, `{"old":2,"new":3}`, `true`, `{"A":"wrong"}`}
+	type holder struct {
+		I any
+		L []any
+		M map[string]any
+		P *any
+	}
+	sub := sub0
+	for _, mk := range mks {
+		for _, doc := range docs {
+			if !c.Cur(sub, "shapes=core\ninterface holding "+mk.name+" <- "+doc) {
+				sub++
+				continue
+			}
+			for ci := range decCfgs {
+				cfg := &decCfgs[ci]
+				for form := 0; form < 3; form++ {
+					var g, s any
+					var d []byte
+					switch form {
+					case 0:
+						gi, si := mk.mk(), mk.mk()
+						g, s, d = &gi, &si, []byte(doc)
+					case 1:
+						g, s = &holder{I: mk.mk(), L: []any{mk.mk(), 1}}, &holder{I: mk.mk(), L: []any{mk.mk(), 1}}
+						d = []byte(`{"I":` + doc + `,"L":[` + doc + `]}`)
+					default:
+						gp, sp := mk.mk(), mk.mk()
+						g, s = &holder{M: map[string]any{"k": mk.mk()}, P: &gp}, &holder{M: map[string]any{"k": mk.mk()}, P: &sp}
+						d = []byte(`{"M":{"k":` + doc + `},"P":` + doc + `}`)
+					}
+					var gerr error
+					pan, msg, _ := rt.Guard(func() { gerr = cfg.gof(d, g) })
+					serr := cfg.stdf(d, s)
+					c.Eval(1)
+					ctx := fmt.Sprintf("%s:form%d", mk.name, form)
+					switch {
+					case pan:
+						c.Violate(rt.Violation{Monitor: "dec-diff", Entry: cfg.name, Kind: "iface-holding:panic", Ctx: ctx, Detail: string(d) + ": " + msg, Sub: sub})
+					case (gerr != nil) != (serr != nil):
+						c.Violate(rt.Violation{Monitor: "dec-diff", Entry: cfg.name, Kind: "iface-holding:verdict", Ctx: ctx, Detail: fmt.Sprintf("%s: go-json err=%v, encoding/json err=%v", d, gerr, serr), Sub: sub})
+					case serr == nil && !reflect.DeepEqual(g, s):
+						gs, _ := stdjson.Marshal(g)
+						ss, _ := stdjson.Marshal(s)
+						c.Violate(rt.Violation{Monitor: "dec-diff", Entry: cfg.name, Kind: "iface-holding:value", Ctx: ctx, Detail: fmt.Sprintf("%s: go-json %s (%T), encoding/json %s (%T)", d, gs, reflect.ValueOf(g).Elem().Interface(), ss, reflect.ValueOf(s).Elem().Interface()), Sub: sub})
+					}
+				}
+			}
+			c.NonTrivial("iface-holding", mk.name, doc)
+			sub++
+		}
+	}
+	c.Obs("interface_holding_cases", int64(sub-sub0))
+}
+
 func c02FreshRender(d c02FreshDst) string {
 	var sb strings.Builder
 	v := reflect.ValueOf(d)
@@ -446,6 +523,9 @@ func init() {
 			}
 			if c.Idx%64 == 10 {
 				c02Fresh(c, 6000)
+			}
+			if c.Idx%128 == 11 {
+				c02IfaceHolding(c, 8000)
 			}
 			for k := 0; k < 40; k++ {
 				o := gen.TypeOpts{FeatureProb: 20}
